@@ -83,6 +83,9 @@ class Cipher:
             return self.cls(key).decrypt(nonce, ct, None)
         except InvalidTag:
             raise FormatError('authentication failed') from None
+        except ValueError as e:
+            # too short to hold a nonce and a tag: not a ciphertext at all
+            raise FormatError(f'not a ciphertext: {e}') from None
 
     def encrypt(self, data, key, nonce=None):
         nonce = nonce if nonce is not None else os.urandom(self.nonce_bytes)
